@@ -62,7 +62,7 @@ pub fn expected_ids(a: &Arena, t: &Target) -> Vec<LockId> {
 	match t {
 		Target::Leaf(i) => out.push(a.leaf_ids[*i]),
 		Target::Unit(u) => out.extend(a.unit_ids[*u].iter().copied()),
-		Target::Coll(_, v) | Target::PoisColl(v) => {
+		Target::Coll(_, v) | Target::PoisColl(_, v) => {
 			for m in v {
 				expected_ids_member(a, m, &mut out);
 			}
@@ -251,7 +251,22 @@ impl<'a> Tc<'a> {
 					}
 				})
 				.flatten(),
-			Target::PoisColl(members) => self
+			Target::PoisColl(CollKind::Retry, members) => self
+				.with_members(members, |tc, outer| {
+					let c = tc.nonacq("Retry::try_new", || RetryingLockCollection::try_new(outer));
+					match c {
+						Some(c) => {
+							let p = Poisonable::new(c);
+							Some(k(tc, &p, &exp))
+						}
+						None => {
+							tc.v("C07", "false_duplicate", dupmsg("Retry::try_new"));
+							None
+						}
+					}
+				})
+				.flatten(),
+			Target::PoisColl(_, members) => self
 				.with_members(members, |tc, outer| {
 					let c = tc.nonacq("Boxed::try_new", || BoxedLockCollection::try_new(outer));
 					match c {
